@@ -75,6 +75,12 @@ macro_rules! arr {
 }
 
 fn apply<R: ByteReader>(r: &mut R, op: &str, n: usize) -> Obs {
+    // Gen_Bytes.tla: Huge = usize::MAX, Huge - 1 = usize::MAX - 3 (TLC integers are 32-bit)
+    let n = match n {
+        2147483647 => usize::MAX,
+        2147483646 => usize::MAX - 3,
+        x => x,
+    };
     match op {
         "read_u8" => o(r.read_u8(), |v| vec![v]),
         "peek_u8" => o(r.peek_u8(), |v| vec![v]),
